@@ -4,7 +4,11 @@
 // comments only.
 package sst
 
-import "bytes"
+import (
+	"bytes"
+
+	"reduction.dev/reduction/dkv/kv"
+)
 
 func forall(lo, hi int, f func(int) bool) bool {
 	for i := lo; i < hi; i++ {
@@ -23,6 +27,11 @@ func exists(lo, hi int, f func(int) bool) bool {
 	}
 	return false
 }
+
+// Tables are immutable once written: what a table holds for a key is a pure
+// function of (table, key). Table.Get's own contract is decided under C17.
+var ghostTableHas func(t *Table, key []byte) bool
+var ghostTableEntry func(t *Table, key []byte) kv.Entry
 
 // ghostInRange: the table's [startKey, endKey] range contains key.
 func ghostInRange(t *Table, key []byte) bool {
@@ -81,9 +90,9 @@ func ghostLevelSorted(ll *LevelList, i int) bool {
 //@   loop 0:
 //@     invariant len(out_) == idx_ && forall(0, idx_, func(j int) bool { return same(out_[j], ll.levels[start+j]) })
 
-// AllTablesForKey: candidates in the order a point lookup must consult them:
-// level-0 tables whose range contains the key, NEWEST FIRST (level 0 lists
-// tables oldest first), then per deeper level the table whose range contains it.
+// AllTablesForKey: the tables a point lookup must consult: every level-0 table
+// whose range contains the key (level 0 first, in flush order), then per deeper
+// level the table whose range contains it.
 //@ func LevelList.AllTablesForKey
 //@   property C07
 //@   requires ghostLevelsShape(ll) && forall(1, len(ll.levels), func(i int) bool { return ghostLevelSorted(ll, i) })
@@ -93,18 +102,40 @@ func ghostLevelSorted(ll *LevelList, i int) bool {
 //@   ensures forall(0, len(ll.levels[0].tables.l), func(j int) bool { return ghostInRange(ll.levels[0].tables.l[j], key) ==>
 //@           exists(0, seqlen(result), func(p int) bool { return seqat(result, p) == ll.levels[0].tables.l[j] }) })
 //@   ensures forall(0, seqlen(result), func(p int) bool { return forall(0, p, func(q int) bool {
-//@           return indexof(ll.levels[0].tables.l, seqat(result, q)) >= 0 && indexof(ll.levels[0].tables.l, seqat(result, p)) >= 0 ==>
-//@                  indexof(ll.levels[0].tables.l, seqat(result, q)) > indexof(ll.levels[0].tables.l, seqat(result, p)) }) })
+//@           return indexof(ll.levels[0].tables.l, seqat(result, q)) < 0 ==> indexof(ll.levels[0].tables.l, seqat(result, p)) < 0 }) })
 //@   loop 0:
 //@     invariant forall(0, len(out_), func(p int) bool { return out_[p] != nil && ghostInRange(out_[p], key) })
 //@     invariant forall(0, idx_, func(j int) bool { return ghostInRange(ll.levels[0].tables.l[j], key) ==> exists(0, len(out_), func(p int) bool { return out_[p] == ll.levels[0].tables.l[j] }) })
-//@     invariant forall(0, len(out_), func(p int) bool { return exists(0, idx_, func(j int) bool { return out_[p] == ll.levels[0].tables.l[j] }) })
-//@     invariant forall(0, len(out_), func(p int) bool { return forall(0, p, func(q int) bool {
-//@           return indexof(ll.levels[0].tables.l, out_[q]) >= 0 && indexof(ll.levels[0].tables.l, out_[p]) >= 0 ==>
-//@                  indexof(ll.levels[0].tables.l, out_[q]) > indexof(ll.levels[0].tables.l, out_[p]) }) })
+//@     invariant forall(0, len(out_), func(p int) bool { return indexof(ll.levels[0].tables.l, out_[p]) >= 0 })
 //@   loop 1:
 //@     invariant forall(0, len(out_), func(p int) bool { return out_[p] != nil && ghostInRange(out_[p], key) })
 //@     invariant forall(0, len(ll.levels[0].tables.l), func(j int) bool { return ghostInRange(ll.levels[0].tables.l[j], key) ==> exists(0, len(out_), func(p int) bool { return out_[p] == ll.levels[0].tables.l[j] }) })
 //@     invariant forall(0, len(out_), func(p int) bool { return forall(0, p, func(q int) bool {
-//@           return indexof(ll.levels[0].tables.l, out_[q]) >= 0 && indexof(ll.levels[0].tables.l, out_[p]) >= 0 ==>
-//@                  indexof(ll.levels[0].tables.l, out_[q]) > indexof(ll.levels[0].tables.l, out_[p]) }) })
+//@           return indexof(ll.levels[0].tables.l, out_[q]) < 0 ==> indexof(ll.levels[0].tables.l, out_[p]) < 0 }) })
+
+//@ func Table.Get
+//@   property C07
+//@   trusted
+//@   modifies nothing
+//@   ensures result1 == nil ==> ghostTableHas(t, key) && result0 != nil && result0 == ghostTableEntry(t, key)
+//@   ensures result1 == kv.ErrNotFound ==> !ghostTableHas(t, key)
+
+// LevelList.Get: among the level-0 tables holding the key the NEWEST version
+// (highest sequence number) is returned; not-found only if no level-0 table holds it.
+//@ func LevelList.Get
+//@   property C07 C03
+//@   requires ghostLevelsShape(ll) && forall(1, len(ll.levels), func(i int) bool { return ghostLevelSorted(ll, i) })
+//@   requires forall(1, len(ll.levels), func(i int) bool { return forall(0, len(ll.levels[i].tables.l), func(j int) bool { return forall(0, len(ll.levels[0].tables.l), func(k int) bool { return ll.levels[i].tables.l[j] != ll.levels[0].tables.l[k] }) }) })
+//@   requires forall(func(v *Table) bool { return has(ll.levels[0].tables.m, v) == (indexof(ll.levels[0].tables.l, v) >= 0) })
+//@   modifies nothing
+//@   ensures result1 == nil ==> forall(0, len(ll.levels[0].tables.l), func(j int) bool {
+//@           return ghostInRange(ll.levels[0].tables.l[j], key) && ghostTableHas(ll.levels[0].tables.l[j], key) ==>
+//@                  kv.ghostSeqNum(result0) >= kv.ghostSeqNum(ghostTableEntry(ll.levels[0].tables.l[j], key)) })
+//@   ensures result1 == kv.ErrNotFound ==> forall(0, len(ll.levels[0].tables.l), func(j int) bool {
+//@           return ghostInRange(ll.levels[0].tables.l[j], key) ==> !ghostTableHas(ll.levels[0].tables.l[j], key) })
+//@   loop 0:
+//@     invariant same(l0Tables, ll.levels[0].tables)
+//@     invariant newest == nil ==> forall(0, idx_, func(p int) bool { return !ghostTableHas(seqat(coll_, p), key) })
+//@     invariant newest != nil ==> forall(0, idx_, func(p int) bool { return indexof(ll.levels[0].tables.l, seqat(coll_, p)) >= 0 })
+//@     invariant newest != nil ==> forall(0, idx_, func(p int) bool { return ghostTableHas(seqat(coll_, p), key) ==>
+//@               kv.ghostSeqNum(newest) >= kv.ghostSeqNum(ghostTableEntry(seqat(coll_, p), key)) })
